@@ -151,8 +151,10 @@ class PB:
                                  "cost": self._cost(cost)})
         return k
 
-    def select(self, name, workers, n=1, kind="exact"):
-        self.p["selects"].append({"name": name, "workers": list(workers), "n": n, "kind": kind})
+    def select(self, name, workers, n=1, kind="exact", cumuls=()):
+        """workers: plain worker indices; cumuls: cumulative workers listed as members too (after the plain ones)."""
+        members = [{"t": "worker", "i": w} for w in workers] + [{"t": "cumul", "i": c} for c in cumuls]
+        self.p["selects"].append({"name": name, "workers": list(workers), "members": members, "n": n, "kind": kind})
         return len(self.p["selects"])
 
     def _use(self, task, worker, req, dynamic=False, delay_in=0, early_out=0):
@@ -164,15 +166,25 @@ class PB:
         r = len(self.p["reqs"]) + 1
         if worker is not None:
             uses = [self._use(task, worker, r, dynamic, delay_in, early_out)]
-            rec = {"task": task, "type": "worker", "ref": worker, "uses": uses, "n": 1, "kind": "exact"}
+            rec = {"task": task, "type": "worker", "ref": worker, "uses": uses, "n": 1, "kind": "exact",
+                   "groups": [[u] for u in uses]}
         elif select is not None:
             s = self.p["selects"][select - 1]
-            uses = [self._use(task, w, r) for w in s["workers"]]
-            rec = {"task": task, "type": "select", "ref": select, "uses": uses, "n": s["n"], "kind": s["kind"]}
+            uses, groups = [], []
+            for m in s["members"]:
+                if m["t"] == "worker":
+                    g = [self._use(task, m["i"], r)]
+                else:
+                    # a cumulative worker listed in a selection: picking it takes ONE of its units
+                    g = [self._use(task, w, r) for w in self.p["cumuls"][m["i"] - 1]["units"]]
+                uses += g
+                groups.append(g)
+            rec = {"task": task, "type": "select", "ref": select, "uses": uses, "n": s["n"], "kind": s["kind"], "groups": groups}
         else:
             c = self.p["cumuls"][cumul - 1]
             uses = [self._use(task, w, r) for w in c["units"]]
-            rec = {"task": task, "type": "cumul", "ref": cumul, "uses": uses, "n": 1, "kind": "min"}
+            rec = {"task": task, "type": "cumul", "ref": cumul, "uses": uses, "n": 1, "kind": "min",
+                   "groups": [[u] for u in uses]}
         rec.update({"dynamic": dynamic, "delay_in": delay_in, "early_out": early_out})
         self.p["reqs"].append(rec)
         return r
